@@ -347,7 +347,15 @@ fn check(case: &Value, obs: &mut Obs) {
     let t = c.target.min(hs.len() - 1);
     perform(&hs[t], c.op, &ps[t])
   };
-  let expected: Vec<Vec<Answer>> = threads.iter().map(|t| t.iter().map(&reference).collect()).collect();
+  // a panic of the single-threaded reference is not a concurrency failure
+  // (it belongs to C17): the case cannot be evaluated for C18
+  let Ok(expected) = std::panic::catch_unwind(std::panic::AssertUnwindSafe(|| {
+    threads.iter().map(|t| t.iter().map(&reference).collect()).collect::<Vec<Vec<Answer>>>()
+  })) else {
+    let _ = crate::worker::take_panic();
+    obs.count("sequential_reference_panicked(case_not_evaluated)", 1);
+    return;
+  };
 
   let mut prefix: Option<Vec<usize>> = Some(fixed_prefix.clone().unwrap_or_default());
   let mut schedules = 0usize;
@@ -590,7 +598,15 @@ fn check_stress(case: &Value, obs: &mut Obs) {
     let t = c.target.min(hs.len() - 1);
     perform(&hs[t], c.op, &ps[t])
   };
-  let expected: Vec<Vec<Answer>> = threads.iter().map(|t| t.iter().map(&reference).collect()).collect();
+  // a panic of the single-threaded reference is not a concurrency failure
+  // (it belongs to C17): the case cannot be evaluated for C18
+  let Ok(expected) = std::panic::catch_unwind(std::panic::AssertUnwindSafe(|| {
+    threads.iter().map(|t| t.iter().map(&reference).collect()).collect::<Vec<Vec<Answer>>>()
+  })) else {
+    let _ = crate::worker::take_panic();
+    obs.count("sequential_reference_panicked(case_not_evaluated)", 1);
+    return;
+  };
   if yield_hooks {
     rspack_sources::verif::set_scheduler(Some((
       Arc::new(|_| std::thread::yield_now()),
